@@ -339,6 +339,13 @@ func (h *FBDNSDB) Reload(s ReloadSignal) (err error) {
 	h.reloadMu.Lock()
 	defer h.reloadMu.Unlock()
 
+	select {
+	case <-h.done:
+		// a signal that was queued before Close: the backend is gone
+		return fmt.Errorf("DB is closed, ignoring reload request")
+	default:
+	}
+
 	switch s.Kind {
 	case FullReload:
 		if s.Payload == "" {
